@@ -732,7 +732,7 @@ def peek_problems(repo) -> Tuple[List[str], int, str]:
         ok = tok is not None and r in ("struct.unpack('B',%s)[0]" % tok, "struct.unpack('>B',%s)[0]" % tok, "struct.unpack('!B',%s)[0]" % tok,
                                        "struct.unpack('<B',%s)[0]" % tok, 'six.indexbytes(%s,0)' % tok, 'ord(%s)' % tok,
                                        'six.byte2int(%s)' % tok, "int.from_bytes(%s,'big')" % tok, "int.from_bytes(%s,'little')" % tok,
-                                       'bytearray(%s)[0]' % tok)
+                                       'bytearray(%s)[0]' % tok, '%s[0]' % tok, '%s[-1]' % tok)   # (indexing bytes gives the integer: Python 3)
         if not ok and tok is not None:
             # ``S.unpack(tok)[0]`` / ``struct.unpack(FMT, tok)[0]`` with a struct constant of one unsigned byte
             try:
